@@ -18,12 +18,16 @@ warnings.simplefilter("ignore")
 import classy_blocks as cb  # noqa: E402
 
 TOL = 1e-7  # the library's documented merge tolerance (constants.TOL); the generator keeps a 2.5x margin on both sides
-POOL = ["pA", "pB", "pC", "pD"]
+# varied names: with the pinned hash seed the iteration order of a set of two of them is alphabetical for some pairs
+# and not for others (a sorting slip in the patch key only shows for the latter)
+POOL = ["inlet", "outlet", "walls", "top", "atmosphere", "cyc_half0", "cyc_half1", "rotor", "stator", "AMI1", "AMI2",
+        "sym", "z_far", "b", "a1", "Master"]
 
 RULE = (
     "Assemblies of <= 8 Lofts cut from a node lattice (24 corner numberings, random insertion order), patch names from "
-    "a pool of 4 on random sides, 0-2 master/slave pairs (structured cells put master/slave on the two sides of "
-    "internal faces, incl. several pairs at one node); tolerance cell: per-corner jitter of norm <= 0.2*TOL (must "
+    "a pool of 16 (4 per case) on random sides, 0-2 master/slave pairs (structured cells put master/slave on the two sides of "
+    "internal faces, incl. several pairs at one node; the edge cell stacks two blocks on the slave side of two pairs "
+    "along the edge where the pairs meet); about 2/3 of the assemblies are moved 1e3..2e6 away from the origin; tolerance cell: per-corner jitter of norm <= 0.2*TOL (must "
     "merge) and per-node near-miss displacement of 3..8*TOL (must not merge). The partition of (operation, corner) "
     "into vertices read from Block.indexes is compared with the reference partition by (position class, set of slave "
     "patches at the corner) built from the lattice bookkeeping, and with the partition of a second insertion order. "
@@ -62,12 +66,63 @@ def _internal_faces(dims, cells) -> List[Tuple[int, int, int]]:
     return out
 
 
+def _far_away(draw, case, mode: str) -> None:
+    """models far from the origin (geo-referenced coordinates): the merge distance must not grow with the coordinates"""
+    size = draw(st.sampled_from([0.0, 0.0, 0.0, 1e3, 1e5] + ([2e6] if mode != "tolerance" else [1e5])))
+    if size:
+        off = [size * draw(st.sampled_from([1.0, 0.0, -1.0, 2.1])) for _ in range(3)]
+        if any(off):
+            case["offset"] = off
+
+
+@st.composite
+def edge_case(draw):
+    """Two merged pairs meet along a lattice edge; the blocks on the slave side of both are stacked along that edge,
+    so the corners on it carry two slave patches and are shared by two slave-side blocks."""
+    c_ax = draw(st.integers(0, 2))
+    a_ax, b_ax = [x for x in range(3) if x != c_ax]
+    if draw(st.booleans()):
+        a_ax, b_ax = b_ax, a_ax
+    dims = [2, 2, 2]
+    qa, qb = draw(st.integers(0, 1)), draw(st.integers(0, 1))  # column of the blocks on the slave side of both pairs
+    with_fourth = draw(st.booleans())
+
+    def cell(ia, ib, ic):
+        ijk = [0, 0, 0]
+        ijk[a_ax], ijk[b_ax], ijk[c_ax] = ia, ib, ic
+        return lt.cell_index(dims, *ijk)
+
+    cols = [(qa, qb), (1 - qa, qb), (qa, 1 - qb)] + ([(1 - qa, 1 - qb)] if with_fourth else [])
+    cells = [cell(ia, ib, ic) for ic in (0, 1) for ia, ib in cols]
+    cells = list(draw(st.permutations(cells)))
+    names = list(draw(st.lists(st.sampled_from(POOL), min_size=4, max_size=4, unique=True)))
+    m1, s1, m2, s2 = names
+    if draw(st.integers(0, 3)) == 0:
+        m2 = m1  # one master patch, two slaves
+    pairs = [[m1, s1], [m2, s2]]
+    patches: List[List[Any]] = []
+    for ic in (0, 1):
+        q, a, b = cell(qa, qb, ic), cell(1 - qa, qb, ic), cell(qa, 1 - qb, ic)
+        patches += [[cells.index(q), 2 * a_ax + (1 - qa), s1], [cells.index(a), 2 * a_ax + qa, m1],
+                    [cells.index(q), 2 * b_ax + (1 - qb), s2], [cells.index(b), 2 * b_ax + qb, m2]]
+    patches = list(draw(st.permutations(patches)))
+    k = len(cells)
+    for _ in range(draw(st.integers(0, 2))):
+        patches.append([draw(st.integers(0, k - 1)), draw(st.integers(0, 5)), draw(st.sampled_from(names))])
+    case = {"dims": dims, "widths": [[10.0 ** draw(st.floats(-0.5, 0.5)) for _ in range(2)] for _ in range(3)], "jitter": [],
+            "cells": cells, "orient": [draw(st.integers(0, 23)) for _ in cells]}
+    _far_away(draw, case, "edge")
+    case.update(pairs=pairs, patches=patches, merge_first=draw(st.booleans()),
+                order2=list(draw(st.permutations(list(range(k))))), jit=[], miss=[], mode="edge")
+    return case
+
+
 @st.composite
 def c05_case(draw, mode: str):
     case = draw(lt.lattice(min_cells=2, max_cells=8, jitter="maybe"))
     cells = case["cells"]
     k = len(cells)
-    names = list(draw(st.permutations(POOL)))
+    names = list(draw(st.lists(st.sampled_from(POOL), min_size=4, max_size=4, unique=True)))
     npairs = draw(st.integers(1, 2)) if mode == "structured" else draw(st.integers(0, 2))
     if npairs == 0:
         pairs: List[List[str]] = []
@@ -93,9 +148,10 @@ def c05_case(draw, mode: str):
                 patches += [[cells.index(a), 2 * ax + 1, s], [cells.index(b), 2 * ax, m]]
     paired = sorted({n for p in pairs for n in p})
     for _ in range(draw(st.integers(0, 3 if mode == "structured" else 12))):
-        name = draw(st.sampled_from(paired)) if paired and draw(st.booleans()) else draw(st.sampled_from(POOL))
+        name = draw(st.sampled_from(paired)) if paired and draw(st.booleans()) else draw(st.sampled_from(names))
         patches.append([draw(st.integers(0, k - 1)), draw(st.integers(0, 5)), name])
     case.pop("chops", None)
+    _far_away(draw, case, mode)
     case.update(
         pairs=pairs,
         patches=patches,
@@ -316,6 +372,18 @@ def label_case(case, ref: Ref, stats, ctx: Ctx) -> None:
         ctx.label("two-slave-patches-at-one-node")
     if any(len(ref.slave_set(x)) >= 2 for x in ref.corners):
         ctx.label("corner-with-two-slave-patches")
+    multi: Dict[Tuple[Any, frozenset], set] = {}
+    for x in ref.corners:
+        if len(ref.slave_set(x)) >= 2 and not ref.self_merged(x):
+            multi.setdefault((ref.pclass[x], ref.slave_set(x)), set()).add(x[0])
+    shared_multi = [key for key, owners in multi.items() if len(owners) >= 2]
+    if shared_multi:
+        ctx.label("two-slave-corner-shared-by-two-blocks")
+        # informative only: iteration order of such a set under the pinned hash seed (what an unsorted key would see)
+        if any(list(set(key[1])) != sorted(key[1]) for key in shared_multi):
+            ctx.label("two-slave-corner-shared:set-order-not-alphabetical")
+    if case.get("offset"):
+        ctx.label("far-from-origin" if max(abs(v) for v in case["offset"]) >= 1e5 else "offset-1e3")
     if case["jit"]:
         ctx.label("sub-TOL-jitter")
     if case["miss"]:
@@ -371,14 +439,15 @@ def check_file(case, ctx: Ctx) -> None:
         raise Violation("indices-not-dense", f"hex entries use labels {sorted(used)}; the file lists {n} vertices", **f)
     if n != len(mesh.vertex_list.vertices):
         raise Violation("vertex-count", f"file lists {n} vertices, the mesh holds {len(mesh.vertex_list.vertices)}", **f)
+    # printed with 8 decimals (half a unit of the last place = 5e-9, + rounding of the coordinate itself far from 0)
+    half = 5.1e-9 + 4 * float(np.spacing(max(float(np.max(np.abs(p))) for p in cpos.values())))
     for x, v in vid.items():
-        # printed with 8 decimals (half a unit of the last place = 5e-9) + merge tolerance
         d = float(np.max(np.abs(np.asarray(bmd.vertices[v].pos) - cpos[x])))
-        if d >= TOL + 5.1e-9:
+        if d >= TOL + half:
             raise Violation("vertex-off-corner", f"corner {x} -> label {v} at {bmd.vertices[v].pos}, {d:g} away", **f)
     for i, v in enumerate(mesh.vertex_list.vertices):
         d = float(np.max(np.abs(np.asarray(bmd.vertices[i].pos) - np.asarray(v.position))))
-        if d > 5.1e-9:
+        if d > half:
             raise Violation("list-order", f"vertex {i} of the file is {d:g} away from vertex {i} of the mesh", **f)
     stats = check_partition(case, ref, vid, ctx, "written file")
     label_case(case, ref, stats, ctx)
@@ -408,11 +477,14 @@ def _fixed_quad():
 FIXED = [_fixed_two(True, False), _fixed_two(False, True), _fixed_quad()]
 
 CELLS = [
-    Cell("C05/partition/random", c05_case("random"), check_assembly, 1000, 40000,
-         "patches from a pool of 4 on random sides, 0-2 pairs; reference partition, dense indices, second insertion order",
+    Cell("C05/partition/random", c05_case("random"), check_assembly, 800, 40000,
+         "4 patch names out of a pool of 16 on random sides, 0-2 pairs; reference partition, dense indices, second insertion order",
          fixed_cases=FIXED),
-    Cell("C05/partition/structured", c05_case("structured"), check_assembly, 1000, 40000,
+    Cell("C05/partition/structured", c05_case("structured"), check_assembly, 800, 40000,
          "master/slave of 1-2 pairs on the two sides of internal lattice faces (several pairs at one node) + noise patches"),
+    Cell("C05/partition/two-pairs-along-edge", edge_case(), check_assembly, 400, 15000,
+         "2x2x2 lattice: the blocks on the slave side of two pairs are stacked along the edge where the pairs meet; names "
+         "from a pool of 16 so that set iteration orders differ from alphabetical"),
     Cell("C05/tolerance", c05_case("tolerance"), check_assembly, 1000, 40000,
          "per-corner jitter <= 0.2*TOL must merge, per-node near-miss of 3..8*TOL must not; with random patches/pairs"),
     Cell("C05/file", c05_case("structured"), check_file, 300, 10000,
